@@ -68,9 +68,27 @@ const VOLS: &[&str] = &["100", "0", "-5", "150", "50", "x", "100", "\u{a0}60", "
 const TCS: &[&str] = &["1", "0", "", "2", "10", "0", "1", " 1", "1 ", " 0", "+1", "01", "1.0", "true", "\t1"];
 const FLS: &[&str] = &["0", "1", "8", "9", "x", "3", "0"];
 
+/// Integer spellings at the edges of every width a field might be narrowed or widened to (8/16/32/64 bit, signed and
+/// unsigned), plus padded/signed forms; any integer field of a line may carry one.
+pub const INT_EDGES: &[&str] = &[
+    "127", "128", "-128", "-129", "255", "256", "257", "-255", "-256", "-8", "-7", "-1", "264", "265", "32767", "32768", "-32768", "-32769", "65535", "65536", "65537", "2147483646", "2147483647", "2147483648", "-2147483646", "-2147483647",
+    "-2147483648", "-2147483649", "4294967295", "4294967296", "4294967297", "-4294967295", "9223372036854775807", "9223372036854775808", "-9223372036854775808", "18446744073709551616", "007", "+7", "-0", "00", "+0", "0x8", "8.0", "1e1", "",
+];
+/// `Mode:` values: the four ids plus spellings that are not a mode and must leave the current mode alone.
+const MODE_VALUES: &[&str] = &["0", "1", "2", "3", "0", "1", "2", "3", "4", "7", "01", "03", "+1", "-1", "255", "256", "257", "259", "1.0", "3 ", " 1", "", "x", "Mania", "taiko"];
+
 fn gen_line(rng: &mut Rng) -> String {
     let nf = if rng.chance(1, 3) { 2 + rng.below(7) } else { 8 };
-    let f = [*rng.pick(TIMES), *rng.pick(BLS), *rng.pick(SIGS), *rng.pick(BANKS), *rng.pick(CUSTOMS), *rng.pick(VOLS), *rng.pick(TCS), *rng.pick(FLS)];
+    let mut f = [*rng.pick(TIMES), *rng.pick(BLS), *rng.pick(SIGS), *rng.pick(BANKS), *rng.pick(CUSTOMS), *rng.pick(VOLS), *rng.pick(TCS), *rng.pick(FLS)];
+    if rng.chance(1, 5) {
+        // one integer field (meter, bank, custom bank, volume, flags; rarely the time or the timing-change flag)
+        // carries a width-boundary spelling
+        let at = *rng.pick(&[2usize, 3, 4, 5, 7, 7, 7, 0, 6]);
+        f[at] = *rng.pick(INT_EDGES);
+        if at == 0 && f[at] == "-0" {
+            f[at] = "0"; // a negative-zero time is outside the stated alphabet (see assumptions)
+        }
+    }
     let mut l = f[..nf.min(8)].join(",");
     if nf == 8 && rng.chance(1, 8) {
         // surplus fields / a trailing comma after the effect flags
@@ -171,7 +189,7 @@ impl Scenario for C12 {
         if rng.chance(1, 6) && !p.lines.is_empty() {
             for _ in 0..1 + rng.below(2) {
                 let at = rng.below(p.lines.len() + 1);
-                p.lines.insert(at, format!("!mode {}", rng.below(4)));
+                p.lines.insert(at, format!("!mode {}", *rng.pick(MODE_VALUES)));
             }
             p.faults.push("mode-switch-between-lines".into());
         }
